@@ -110,7 +110,7 @@ pub fn run(a: &Args) {
 	let _ = w.mine_n(Some(0), 5);
 	let _ = w.mine_n(None, 3);
 	let _ = w.wallets[0].refresh();
-	let n_sessions = if a.thorough() { 30 } else { 4 };
+	let n_sessions = if a.thorough() { 30 } else { 8 };
 	let per_session = if a.thorough() { 400 } else { 220 };
 	let methods = ["accounts", "create_account_path", "set_active_account", "retrieve_outputs", "retrieve_txs", "retrieve_summary_info", "init_send_tx", "issue_invoice_tx", "tx_lock_outputs", "finalize_tx", "cancel_tx", "get_stored_tx", "scan", "node_height", "get_top_level_directory", "set_top_level_directory", "create_config", "create_wallet", "open_wallet", "close_wallet", "get_mnemonic", "change_password", "delete_wallet", "start_updater", "stop_updater", "get_updater_messages", "get_slatepack_address", "get_slatepack_secret_key", "create_slatepack_message", "decode_slatepack_message", "retrieve_payment_proof", "set_tor_config", "build_output", "get_rewind_hash", "query_txs"];
 	let params_for = |m: &str, n: u64| -> Value {
